@@ -61,6 +61,10 @@ CLAIMS.update({
    text="Fragment (the ddptypes side of the statement). The binding step of unification (the closure unifyType of UnifyGenericType) is proved against its map specification: an already-bound type parameter keeps its first binding and returns it (so that the caller's comparison with the argument type rejects a second, different binding), an unbound one is bound to the argument, and no other binding changes. The struct instantiation cache GetInstantiatedStructType is proved, with a loop invariant over the cached list, to return the first cached instantiation whose type arguments are pairwise equivalent to the requested ones (equal arguments: one and the same type object), otherwise a fresh object distinct from every cached one that is appended to the cache, and nil exactly on an arity mismatch. Not decided: re-parsing of generic function bodies, the per-module function cache, the merged symbol table, and code generation of instantiations (they are behavioural equivalences between two parses, outside function contracts).",
    note="Trusted: slices.EqualFunc (result is the uninterpreted relation eqAllBy of its three arguments), immutability of StructType.instantiatedWith after construction, map model of the engine.",
    ref="6/C15"),
+ "C18": dict(
+   text="Partial (declaration side of the convention). Proved on the real code generator: (1) which descriptors are 'primitive' - the seven IsPrimitive implementations, linked to the interface method by dynamic dispatch; (2) toIrType maps every DDP type class (after aliases and type definitions) to its descriptor - Zahl, Kommazahl, Byte, Wahrheitswert, Buchstabe by-value descriptors, Text, Variable, the seven list descriptors and Kombinationen non-primitive ones; (3) toIrParamType yields the value type exactly for a non-Referenz parameter of the five primitive classes and a pointer to the representation for Text, lists, Kombinationen, Variable and every Referenz (the relation rep, written from the statement); (4) both places that build an IR signature (VisitFuncDecl for declared/extern functions, declareImportedFuncDecl for imported ones) hand llir exactly: a leading out-pointer of the result's representation and IR result void for a non-primitive result, the value type as IR result otherwise, then one IR parameter per declared parameter in order, each rep(parameter) (loop invariants over the parameter list; opaque pointers for generic extern parameters). Not decided: argument construction and caller-side release at call sites, the C header layouts, unmangled names of extern symbols, linking.",
+   note="Trusted: ir.NewParam/Module.NewFunc (llir), IrType/PtrType accessors as uninterpreted functions of the descriptor (PtrType = pointer to IrType is a set-up fact), CastDeeplyNestedGenerics as the definition of 'generic', mangledNameDecl frame, immutability of the descriptor fields of the compiler, AST link GenericInstantiation.GenericDecl != nil.",
+   ref="6/C18"),
 })
 NA = {
  "C08": "relational whole-program property (no holder observes another holder's mutation); no function contract within reach states it; the local copy/claim mechanics are covered under C05/C18 where claimed",
